@@ -345,6 +345,74 @@ theorem seal_copies (c : Ctx) (h : Header) (vr lr tr gu ldr : Nat) :
   intro hs
   simp [sealHeader, hs]
 
+/-- block `b` with another gas limit and deputy root, re-signed (`s'`) -/
+def restamp (b : Block) (g dr s' : Nat) : Block :=
+  { b with header := { b.header with gasLimit := g, deputyRoot := dr, signData := s' } }
+
+theorem restamp_verifyBefore (c : Ctx) (b : Block) (g dr s' : Nat)
+    (hrec : c.recover (c.hash (restamp b g dr s').header.hashed) s' = c.recover (c.hash b.header.hashed) b.header.signData) :
+    verifyBefore c (restamp b g dr s') = verifyBefore c b := by
+  have hs : verifySigner c (restamp b g dr s') = verifySigner c b := by
+    unfold verifySigner
+    have : (restamp b g dr s').header.signData = s' := rfl
+    rw [this, hrec]
+    rfl
+  unfold verifyBefore
+  rw [hs]
+  rfl
+
+theorem restamp_verifyAfter (c : Ctx) (b : Block) (g dr s' : Nat) (hinj : HashInjective c)
+    (hsnap : IsSnapshotBlock (height := b.header.height) (params_TermDuration := c.termDuration) = false)
+    (hexec : c.reexec (restamp b g dr s') = c.reexec b)
+    (hok : verifyAfter c b = .ok) : verifyAfter c (restamp b g dr s') = .ok := by
+  obtain ⟨vr, lr, tr, gu, ldr, hre, _, hlogs, hlr, hhash⟩ := verifyAfter_ok hok
+  have hseal := hinj _ _ hhash
+  have e1 : vr = b.header.versionRoot := by
+    have := congrArg Header.versionRoot hseal
+    simpa [sealHeader, Header.hashed] using this
+  have e2 : tr = b.header.txRoot := by
+    have := congrArg Header.txRoot hseal
+    simpa [sealHeader, Header.hashed] using this
+  have e3 : gu = b.header.gasUsed := by
+    have := congrArg Header.gasUsed hseal
+    simpa [sealHeader, Header.hashed] using this
+  have hbl : bodyLogsBad (restamp b g dr s') = false := by
+    unfold bodyLogsBad
+    cases hl : b.logsRoot with
+    | none => simp [restamp, hl]
+    | some r => simp [restamp, hl, hlogs r hl]
+  unfold verifyAfter
+  simp only [hexec, hre]
+  have hs' : IsSnapshotBlock (height := (restamp b g dr s').header.height) (params_TermDuration := c.termDuration) = false := hsnap
+  simp only [hs', hbl, Bool.false_and, Bool.false_eq_true, if_false]
+  have h4 : (lr != (restamp b g dr s').header.logRoot) = false := by
+    simp [restamp, hlr]
+  simp only [h4, Bool.false_eq_true, if_false]
+  have h5 : (sealHeader c (restamp b g dr s').header vr lr tr gu ldr).hashed = (restamp b g dr s').header.hashed := by
+    simp [sealHeader, Header.hashed, restamp, hsnap, e1, e2, e3, hlr]
+  rw [h5]
+  simp
+
+/-- **seal_copied_fields_unconstrained** (general form of the two witnesses below): take ANY accepted block
+    at a non-snapshot height, replace its `GasLimit` and `DeputyRoot` by arbitrary values and re-sign it
+    with the same key (`hrec`); if re-execution is insensitive to the change (`hexec`: e.g. the gas actually
+    used fits both limits), the result is accepted too. No clause of the validator relates these two
+    header fields to the parent or to the re-execution. -/
+theorem seal_copied_fields_unconstrained (c : Ctx) (b : Block) (g dr s' : Nat) (hinj : HashInjective c)
+    (hsnap : IsSnapshotBlock (height := b.header.height) (params_TermDuration := c.termDuration) = false)
+    (hrec : c.recover (c.hash (restamp b g dr s').header.hashed) s' = c.recover (c.hash b.header.hashed) b.header.signData)
+    (hexec : c.reexec (restamp b g dr s') = c.reexec b)
+    (hok : accept c b = .ok) : accept c (restamp b g dr s') = .ok := by
+  unfold accept at hok ⊢
+  rw [restamp_verifyBefore c b g dr s' hrec]
+  cases hvb : verifyBefore c b with
+  | ok =>
+    rw [hvb] at hok
+    exact restamp_verifyAfter c b g dr s' hinj hsnap hexec hok
+  | ignored => rw [hvb] at hok; cases hok
+  | reject r => rw [hvb] at hok; cases hok
+  | panic => rw [hvb] at hok; cases hok
+
 /-- **gasLimit_unconstrained** (witnesses): the witness node accepts the honest block re-stamped with gas
     limit 0, 1 or 2^64-1 (re-signed by the same in-turn deputy) on a parent whose limit is 105000000 —
     no check relates `GasLimit` to the parent or to anything else (`seal_copies` is the reason). -/
